@@ -754,4 +754,13 @@ theorem hsvB : (allSuites PA).find? (fun sv => sv.path == (["s", "u"] : Path).dr
 theorem htB : svA.spec.tests.find? (fun x => x.name == (["s", "u"] : Path).getLast?.getD "") = some tB := by rfl
 theorem hsvS : (allSuites PA).find? (fun sv => sv.path == (["s"] : Path)) = some svA := by rfl
 
+/-- a test whose body nests blocks, saves attachments inside them, changes the step inside, starts a thread
+    inside and finally raises from inside two blocks -/
+def tBlocks : TestSpec :=
+  { name := "w", rank := 2, disabled := false, disabledReason := false, deps := [], fixtures := [],
+    script := [.attachBlock [.attach, .step "inside", .attachBlock [.log .info, .attach], .thread [.attachBlock [.attach]]],
+               .attachBlock [.attachBlock [.raise .abortSuite]], .log .info] }
+def sBlocks : SuiteSpec := .mk "b" 0 false none none (some [.attachBlock [.attach]]) none [] [tBlocks] []
+def PBlocks : Proj := { fixtures := [], suites := [sBlocks], nbThreads := 1, forceDisabled := false, stopOnFailure := false }
+
 end LccModel.Run.Sample
